@@ -307,6 +307,9 @@ func runState(t *testing.T, r *evid.Run, dir string, stIdx int) {
 			r.Violation(key, ci, fmt.Sprintf("state %d request %d (%s %s, ctype %q, browser %q, whois %s, body %s %q): %s -> %d %q", stIdx, caseNo, q.Method, path(q.Endpoint), q.CType, q.Browser, q.Who, q.Body, b, msg, rep.Status, rep.Body),
 				map[string]any{"request": q, "body": string(b), "status": rep.Status, "reply": string(rep.Body)})
 		}
+		if caseNo%4000 == 1 {
+			r.Sample(map[string]any{"state": stIdx, "request": q, "body": string(b), "status": rep.Status, "reply": string(rep.Body), "audit_bytes_written": len(auditBytes)})
+		}
 		gate := ""
 		switch {
 		case q.Method != "POST":
